@@ -381,6 +381,77 @@ func c02random(c *ctx, prop string, r *gen.Rng, n int) {
 	}
 }
 
+// c02derived: the current list is DERIVED from the old one (what a re-parse of the same backend gives): the same
+// endpoints in another order, one dropped / added / replaced, one weight or label changed — for dynamic and for
+// static (dynamic-scaling false) backends. Independent random lists almost never hold the same targets, so the
+// decision "same endpoints => nothing to do, any other difference on a static backend => reload" was not exercised
+// (missed seed C02d: a static backend whose endpoints only changed their order was taken as unchanged).
+func c02derived(c *ctx, prop string, r *gen.Rng, n int) {
+	pool := []string{"10.0.0.1:8080", "10.0.0.2:8080", "10.0.0.3:8080", "10.0.0.4:8080", "10.0.0.1:9090", "10.0.0.5:8080", "10.0.0.6:8080"}
+	for i := 0; i < n; i++ {
+		f := c02flags{aff: r.Chance(1, 4), dyn: r.Bool(), res: r.Chance(1, 20), pres: r.Chance(1, 8), same: !r.Chance(1, 15),
+			minfree: r.Range(0, 3), block: r.Range(0, 4), iw: gen.Pick(r, []int{1, 1, 100})}
+		naming := r.Intn(3)
+		noEmpty := !f.dyn || r.Chance(1, 3)
+		old := c02layout(r, f, naming, r.Range(1, 6), pool, false, noEmpty)
+		var real []c02ep
+		for _, e := range old {
+			if e.enabled {
+				real = append(real, e)
+			}
+		}
+		kind := r.Intn(7)
+		switch kind {
+		case 0: // identical
+		case 1: // another order
+			gen.Shuffle(r.Fork(), real)
+		case 2: // one dropped
+			if len(real) > 0 {
+				k := r.Intn(len(real))
+				real = append(real[:k:k], real[k+1:]...)
+			}
+		case 3: // one added
+			real = append(real, c02ep{"", "10.0.0.9", 8080, true, f.iw, "", "", "d/pod-10-0-0-9", 0})
+		case 4: // one replaced
+			if len(real) > 0 {
+				k := r.Intn(len(real))
+				real[k].ip, real[k].tref = "10.0.0.8", "d/pod-10-0-0-8"
+			}
+		case 5: // weight change
+			if len(real) > 0 {
+				k := r.Intn(len(real))
+				real[k].weight = gen.Pick(r, []int{0, 1, 2, 100})
+			}
+		case 6: // another order and one weight change
+			gen.Shuffle(r.Fork(), real)
+			if len(real) > 0 {
+				real[0].weight = gen.Pick(r, []int{0, 2})
+			}
+		}
+		// names as the converter gives them: a fresh backend filled through the real API in the new order
+		b := hatypes.CreateBackends(0).AcquireBackend("d", "gen", "1")
+		b.Server.InitialWeight = f.iw
+		switch naming {
+		case 1:
+			b.EpNaming = hatypes.EpTargetRef
+		case 2:
+			b.EpNaming = hatypes.EpIPPort
+		}
+		for _, e := range real {
+			ep := b.AddEndpoint(e.ip, e.port, e.tref)
+			ep.Weight, ep.Label = e.weight, e.label
+			if e.cookie == e.name {
+				ep.CookieValue = ep.Name
+			} else {
+				ep.CookieValue = e.cookie
+			}
+		}
+		cur := c02read(b)
+		c.stat(fmt.Sprintf("derived_kind%d_dyn%s", kind, b2s(f.dyn)), 1)
+		c02case(c, prop, f, old, cur, c02script(r, len(old)+2))
+	}
+}
+
 // c02hist: end-to-end form of the statement. A history goes through the real pipeline (watchers,
 // converters, Instance, templates) talking to the simulated HAProxy; after EVERY reconcile the running
 // server table and the certificates held in memory must equal what HAProxy would load from the files on
@@ -554,6 +625,11 @@ func runC02(c *ctx) {
 		n = 300000
 	}
 	c02random(c, "C02", r, n)
+	nd := 2000
+	if c.thorough() {
+		nd = 60000
+	}
+	c02derived(c, "C02", r.Fork(), nd)
 	nh := 80
 	if c.thorough() {
 		nh = 3000
